@@ -554,6 +554,7 @@ struct AnchorInserter {
     idx: usize,
     after: bool,
     scrut: bool,
+    force_unit: bool,
     marker: Stmt,
     block_no: usize,
     done: bool,
@@ -588,11 +589,11 @@ impl VisitMut for AnchorInserter {
                     let is_assign = matches!(e, Expr::Assign(_)) || matches!(e, Expr::Binary(bx) if matches!(bx.op,
                         syn::BinOp::AddAssign(_) | syn::BinOp::SubAssign(_) | syn::BinOp::MulAssign(_) | syn::BinOp::DivAssign(_) |
                         syn::BinOp::BitOrAssign(_) | syn::BinOp::BitAndAssign(_) | syn::BinOp::BitXorAssign(_) | syn::BinOp::ShlAssign(_) | syn::BinOp::ShrAssign(_) | syn::BinOp::RemAssign(_)));
-                    let is_unit_block = matches!(e, Expr::While(_) | Expr::ForLoop(_)) || matches!(e, Expr::If(i) if i.else_branch.is_none());
-                    if !is_assign && !is_unit_block {
+                    let is_unit_block = matches!(e, Expr::While(_) | Expr::ForLoop(_) | Expr::If(_) | Expr::Unsafe(_) | Expr::Block(_) | Expr::Match(_));
+                    if !is_assign && !is_unit_block && !self.force_unit {
                         return;
                     }
-                    if is_assign {
+                    if is_assign || (self.force_unit && !is_unit_block) {
                         let e2 = e.clone();
                         b.stmts[self.idx] = Stmt::Expr(e2, Some(Default::default()));
                     }
@@ -604,7 +605,7 @@ impl VisitMut for AnchorInserter {
     }
 }
 
-fn insert_anchor(block: &mut Block, id: &str, place: &str, anchor: &str, nth: usize) -> Result<(), String> {
+fn insert_anchor(block: &mut Block, id: &str, place: &str, anchor: &str, nth: usize, unit_ret: bool) -> Result<(), String> {
     let marker = marker_stmt("__vp_proof", id);
     match place {
         "start" => {
@@ -619,15 +620,18 @@ fn insert_anchor(block: &mut Block, id: &str, place: &str, anchor: &str, nth: us
         "end" => {
             let n = block.stmts.len();
             if n > 0 {
-                if let Stmt::Expr(_, None) = &block.stmts[n - 1] {
-                    block.stmts.insert(n - 1, marker);
-                    return Ok(());
+                if let Stmt::Expr(e, None) = &block.stmts[n - 1] {
+                    let block_like = matches!(e, Expr::While(_) | Expr::ForLoop(_) | Expr::If(_) | Expr::Unsafe(_) | Expr::Block(_) | Expr::Match(_));
+                    if !(unit_ret && block_like) {
+                        block.stmts.insert(n - 1, marker);
+                        return Ok(());
+                    }
                 }
             }
             block.stmts.push(marker);
             Ok(())
         }
-        "before" | "after" | "scrut" => {
+        "before" | "after" | "after_unit" | "scrut" => {
             let a: String = anchor.chars().filter(|c| !c.is_whitespace()).collect();
             let a_norm = match anchor.parse::<TokenStream>() {
                 Ok(ts) => norm(ts),
@@ -642,7 +646,7 @@ fn insert_anchor(block: &mut Block, id: &str, place: &str, anchor: &str, nth: us
                 return Err(format!("lost anchor: `{}` has {} innermost matches, wanted #{}", anchor, f.cands.len(), nth));
             }
             let (bno, idx) = f.cands[nth];
-            let mut ins = AnchorInserter { target_block: bno, idx, after: place == "after", scrut: place == "scrut", marker, block_no: 0, done: false };
+            let mut ins = AnchorInserter { target_block: bno, idx, after: place == "after" || place == "after_unit", scrut: place == "scrut", force_unit: place == "after_unit", marker, block_no: 0, done: false };
             ins.visit_block_mut(block);
             if !ins.done {
                 return Err(format!("lost anchor: `{}`: cannot insert {} this statement (proof {})", anchor, place, id));
@@ -827,6 +831,25 @@ struct RuleApplier<'c, 'a> {
     cx: &'c mut Ctx<'a>,
 }
 impl<'c, 'a> VisitMut for RuleApplier<'c, 'a> {
+    fn visit_block_mut(&mut self, b: &mut Block) {
+        // two-statement rules first (on the unrewritten statements)
+        let mut i = 0;
+        while i + 1 < b.stmts.len() {
+            let pair = match (&b.stmts[i], &b.stmts[i + 1]) {
+                (Stmt::Expr(e1, Some(_)), Stmt::Expr(e2, semi)) => matcher::apply_stmt_rules(e1, e2, self.cx.rules).map(|r| (r, semi.clone())),
+                _ => None,
+            };
+            if let Some(((ne, id), semi)) = pair {
+                let line = first_line(b.stmts[i].to_token_stream());
+                self.cx.log.push(json!({"rule": id, "line": line, "what": format!("two statements -> {}", one_line(ne.to_token_stream()))}));
+                b.stmts[i] = Stmt::Expr(ne, semi);
+                b.stmts.remove(i + 1);
+            }
+            i += 1;
+        }
+        visit_mut::visit_block_mut(self, b);
+    }
+
     fn visit_expr_mut(&mut self, e: &mut Expr) {
         visit_mut::visit_expr_mut(self, e);
         for _ in 0..8 {
@@ -922,7 +945,11 @@ pub fn extract_fn(file: &syn::File, name: &str, opts: &Value, rules: &[Rule], pl
             all_rules.extend(matcher::parse_rules(&line)?);
         }
     }
-    all_rules.extend(rules.iter().cloned());
+    if let Some(rt) = opts["rules"].as_str() {
+        all_rules.extend(matcher::parse_rules(rt)?);
+    } else {
+        all_rules.extend(rules.iter().cloned());
+    }
     let rules: &[Rule] = &all_rules;
     let mut cx = Ctx { rules, opts, plan, log: vec![], errors: vec![], loops: 0, closures: 0, dasserts: 0 };
     let src_line = f.sig.ident.span().start().line;
@@ -1014,7 +1041,7 @@ pub fn extract_fn(file: &syn::File, name: &str, opts: &Value, rules: &[Rule], pl
                 let place = a["place"].as_str().unwrap();
                 let anchor = a["anchor"].as_str().unwrap_or("");
                 let nth = a["nth"].as_u64().unwrap_or(0) as usize;
-                if let Err(e) = insert_anchor(&mut block, id, place, anchor, nth) {
+                if let Err(e) = insert_anchor(&mut block, id, place, anchor, nth, matches!(f.sig.output, syn::ReturnType::Default)) {
                     cx.errors.push(e);
                 }
             }
